@@ -51,7 +51,23 @@ pub fn run(case: &Value) -> Value {
         // what `boreal list-modules` / `boreal yr -M` must print (sorted by the tool)
         let compiler = boreal::Compiler::new();
         let names: Vec<String> = compiler.available_modules().map(|s| hex(s.as_bytes())).collect();
-        return json!({"modules": names});
+        // and the library's own errors for a process / a file that do not exist
+        let scanner = compiler.finalize();
+        let perr = match case["pid"].as_u64() {
+            Some(pid) => match scanner.scan_process(pid as u32) {
+                Ok(_) => "<<process exists>>".to_string(),
+                Err((e, _)) => e.to_string(),
+            },
+            None => String::new(),
+        };
+        let ferr = match case["path"].as_str() {
+            Some(p) => match scanner.scan_file(p) {
+                Ok(_) => "<<file exists>>".to_string(),
+                Err((e, _)) => e.to_string(),
+            },
+            None => String::new(),
+        };
+        return json!({"modules": names, "process_error": perr, "file_error": ferr});
     }
     // every path of the case is relative to cwd, exactly as for the CLI invocation
     std::env::set_current_dir(Path::new(get_str(case, "cwd"))).expect("cwd");
